@@ -92,6 +92,19 @@ def parseSel (s : String) : Option Sel :=
   | ["lgid", v] => some (.linkedGroupID (v.toNat?.getD 0))
   | ["pt", v] => some (.partType (v.toInt?.getD 0))
   | ["oci", h] => some (.ociDigest ((unhex h).getD []))
+  | ["P", m, e, mt, et, mg] =>
+    -- a caller's own selector function, from the harness's finite family: it answers with its own
+    -- error on the listed IDs / on one data type, and otherwise accepts the listed IDs, one data
+    -- type and one group
+    let ids := fun (x : String) => if x == "-" then [] else (x.splitOn "+").filterMap (·.toNat?)
+    let mids := ids m
+    let eids := ids e
+    let mt := mt.toInt?.getD 0
+    let et := et.toInt?.getD 0
+    let mg := mg.toNat?.getD 0
+    some (.pred (fun d =>
+      if eids.contains d.id || (et != 0 && d.dtype == et) then .error .caller
+      else .ok (mids.contains d.id || (mt != 0 && d.dtype == mt) || (mg != 0 && d.group == mg))))
   | _ => none
 
 def parseSels (s : String) : List Sel :=
@@ -130,6 +143,7 @@ def errClass : Err → String
   | .multipleObjectsFound => "multipleObjectsFound"
   | .invalidObjectID => "invalidObjectID"
   | .invalidGroupID => "invalidGroupID"
+  | .caller => "caller"
   | _ => "other"
 
 def resStr : Res → String
